@@ -1,14 +1,157 @@
-(* C07 - statements only (first version: non-vacuity Examples; the theorems are added below as they are proved) *)
+(* C07  Prepared writes are deferred, per-client and applied in order.
+   Statements only; proofs live in AttSrv/AttSrvProofsVal.v (refinement of the reference semantics) and
+   AttSrv/AttSrvProofsC07.v.
+
+   The reference semantics (AttSrvSpecVal.v) holds the abstract queue  option owner * list (handle, offset, bytes)
+   with byte capacity (an element costs length + 4 + 2), the abstract value store and the link security of
+   every connection. The C07 monitor (AttSrvSpecC07.v) runs it beside a trace and names the violated clause. *)
 From BT Require Import Base.ListX AttDb.AttDbModel NQueue.NQueueModel AttSrv.AttSrvModel AttSrv.AttSrvSpecVal
-  AttSrv.AttSrvSpecC07 AttSrv.AttSrvExamplesVal.
+  AttSrv.AttSrvSpecC07 AttSrv.AttSrvProofsVal AttSrv.AttSrvProofsC07 AttSrv.AttSrvExamplesVal.
 Local Open Scope N_scope.
 
-Example C07_wf_nonvacuous : wf cfg_v_wq10 /\ wf cfg_v_enc_server_none /\ wf cfg_v_handlers.
-Proof. repeat split; vm_compute; reflexivity. Qed.
+(* ---- the whole property, as refinement: for EVERY configuration, request histories of ANY length from any of
+   the connections (prepare / execute / write / disconnect / security changes / everything else interleaved),
+   all PDU bytes, the server answers every Prepare Write and Execute Write exactly as the abstract queue does
+   (b: queued writes applied in queue order up to the first failing one; flag 0 discards; c: released by
+   execute, cancel, disconnect; d: Prepare Queue Full for every other client while owned; e: accepted iff a Write
+   Request to the same attribute on the same connection is permitted (aperm) and the element fits), and the
+   bound variables hold what the reference store holds (a: Prepare Write changes no value). *)
+Definition C07_refines_abstract_queue_full : Prop :=
+  forall c ops, wf c -> monitor c (srv_run c (srv_init c) ops) = None.
 
-(* the monitor accepts the model's own trace of a small history *)
-Example C07_monitor_accepts_model_trace :
-  monitor cfg_v_wq10 (srv_run cfg_v_wq10 (srv_init cfg_v_wq10)
-    [OpIn O [10; 3; 0] 23; OpIn O [18; 3; 0; 1; 2; 3; 4] 23; OpVal O; OpIn 1 [22; 3; 0; 1; 0; 9; 9] 23; OpVal O;
-     OpIn 2 [22; 3; 0; 0; 0; 7] 23; OpIn 1 [24; 1] 23; OpVal O; OpIn O [10; 11; 0] 23; OpSec O true 1; OpIn O [10; 11; 0] 23]) = None.
+(* refuted by handler based values: the permission probe of Prepare Write (check_write: a write of nothing at
+   offset 0) is executed as a real write, so the write handler is called (corpus configuration v_handlers,
+   handle 3 = value of the first characteristic; known finding C07-prepare-write-invokes-write-handler) *)
+Theorem C07_refines_abstract_queue_refuted : ~ C07_refines_abstract_queue_full.
+Proof.
+  intros H. specialize (H cfg_v_handlers [OpIn O [22; 3; 0; 0; 0; 1] 23; OpVal O]).
+  assert (W : wf cfg_v_handlers) by (vm_compute; reflexivity). specialize (H W). vm_compute in H. discriminate H.
+Qed.
+Print Assumptions C07_refines_abstract_queue_refuted.
+
+(* what holds: every configuration in which no characteristic value has a write handler (no_k2; decidable
+   sufficient condition no_k2_b). No other hypothesis: not even wf is needed. *)
+Theorem C07_refines_abstract_queue_partial :
+  forall c ops, no_k2 c -> monitor c (srv_run c (srv_init c) ops) = None.
+Proof. exact monitor_sound. Qed.
+Print Assumptions C07_refines_abstract_queue_partial.
+
+Theorem C07_no_write_handler_decidable : forall c, no_k2_b c = true -> no_k2 c.
+Proof. exact no_k2_b_sound. Qed.
+Print Assumptions C07_no_write_handler_decidable.
+
+(* the step behind it: related states stay related under every operation, and the model's output meets the
+   reference expectation (any state, not only reachable ones; with write handlers the handler call counters are
+   outside the relation) *)
+Theorem C07_step_refinement :
+  forall c st a o, sim c st a -> snd (srv_step c st o) <> OFault ->
+    sim c (fst (srv_step c st o)) (fst (astep c a o)) /\
+    (sat_cond c (snd (astep c a o)) -> sat c (snd (astep c a o)) (snd (srv_step c st o))).
+Proof. exact sim_step. Qed.
+Print Assumptions C07_step_refinement.
+
+(* ---- (a) Prepare Write never changes a value: every configuration, state, connection, request *)
+Theorem C07_prepare_never_changes_value :
+  forall c st cid pdu b n st' r, handle_prepare_write c st cid pdu b n = Some (st', r) -> vals st' = vals st.
+Proof. exact prepare_never_changes_value. Qed.
+Print Assumptions C07_prepare_never_changes_value.
+
+(* ---- (b) Execute Write (flag 1) is the abstract sequential application of the queue *)
+Theorem C07_execute_in_queue_order :
+  forall c cid elems st a st1 failure,
+    sim c st a -> Forall (elem_ok c) elems ->
+    execute_writes c st cid elems = Some (st1, failure) ->
+    sim c st1 (fst (aexecute c a cid (map dec_elem elems))) /\ snd (aexecute c a cid (map dec_elem elems)) = failure.
+Proof. exact execute_writes_sim. Qed.
+Print Assumptions C07_execute_in_queue_order.
+
+(* ---- (c) the queue is released by Execute Write with either flag, also after a failing queued write ... *)
+Theorem C07_execute_releases_queue :
+  forall c st cid flag b n st' r, wqueue c <> None -> flag = 0 \/ flag = 1 ->
+    handle_execute_write c st cid [24; flag] b n = Some (st', r) -> wq_owner st' <> Some cid.
+Proof. exact execute_releases_queue. Qed.
+Print Assumptions C07_execute_releases_queue.
+
+(* ... and by client_disconnected *)
+Theorem C07_disconnect_releases_queue :
+  forall c st cid, wq_owner (fst (srv_step c st (OpDisc cid))) <> Some cid.
+Proof. exact disconnect_releases_queue. Qed.
+Print Assumptions C07_disconnect_releases_queue.
+
+(* ---- (d) while one client holds the queue no other client gets an element *)
+Theorem C07_other_client_gets_queue_full :
+  forall st cid o qs elem, wq_owner st = Some o -> o <> cid -> wq_allocate qs st cid elem = None.
+Proof. exact other_client_gets_queue_full. Qed.
+Print Assumptions C07_other_client_gets_queue_full.
+
+(* ---- non-vacuity *)
+Example C07_hypotheses_nonvacuous :
+  wf cfg_v_wq10 /\ no_k2 cfg_v_wq10 /\ wf cfg_v_wq32 /\ no_k2 cfg_v_wq32 /\ wf cfg_v_enc_server_none /\ no_k2 cfg_v_enc_server_none.
+Proof. repeat split; try (vm_compute; reflexivity); apply no_k2_b_sound; vm_compute; reflexivity. Qed.
+
+(* cfg_v_wq10: handle 3 = a 4 byte value, 11 = a 1 byte value that requires encryption, queue of 10 bytes.
+   The model's own trace: split write, second client refused, execute applies in order, queue released *)
+Example C07_model_trace :
+  map snd (srv_run cfg_v_wq10 (srv_init cfg_v_wq10)
+    [OpIn O [22; 3; 0; 0; 0; 9] 23; OpVal O; OpIn 1 [22; 3; 0; 0; 0; 7] 23; OpIn O [22; 3; 0; 1; 0; 8; 8] 23;
+     OpIn O [24; 1] 23; OpVal O; OpIn 1 [22; 3; 0; 3; 0; 7] 23; OpDisc 1; OpIn 2 [22; 11; 0; 0; 0; 1] 23;
+     OpSec 2 true 1; OpIn 2 [22; 11; 0; 0; 0; 1] 23])
+  = [OBytes [23; 3; 0; 0; 0; 9]; OValue [1; 12; 23; 34] None; OBytes [1; 22; 3; 0; 9]; OBytes [1; 22; 3; 0; 9];
+     OBytes [25]; OValue [9; 12; 23; 34] None; OBytes [23; 3; 0; 3; 0; 7]; ONone; OBytes [1; 22; 11; 0; 5];
+     ONone; OBytes [23; 11; 0; 0; 0; 1]].
+Proof. vm_compute. reflexivity. Qed.
+
+(* the monitor is not trivially accepting: one rejected trace per clause *)
+Example C07_monitor_rejects_refusal_on_encrypted_link :          (* the behaviour before fix/C07-check-write-connection *)
+  monitor cfg_v_wq10 [(OpSec O true 1, ONone); (OpIn O [22; 11; 0; 0; 0; 7] 23, OBytes [1; 22; 11; 0; 5])] = Some (1%nat, t_accept_iff_write).
+Proof. vm_compute. reflexivity. Qed.
+
+Example C07_monitor_rejects_acceptance_without_encryption :
+  monitor cfg_v_wq10 [(OpIn O [22; 11; 0; 0; 0; 7] 23, OBytes [23; 11; 0; 0; 0; 7])] = Some (0%nat, t_accept_iff_write).
+Proof. vm_compute. reflexivity. Qed.
+
+Example C07_monitor_rejects_value_changed_by_prepare :
+  monitor cfg_v_wq10 [(OpIn O [22; 3; 0; 0; 0; 9] 23, OBytes [23; 3; 0; 0; 0; 9]); (OpVal O, OValue [9; 12; 23; 34] None)]
+  = Some (1%nat, t_prepare_changes_value).
+Proof. vm_compute. reflexivity. Qed.
+
+Example C07_monitor_rejects_wrong_order :                        (* cfg_v_wq32: handle 12 = a 4 byte value (characteristic 1), queue of 32 bytes *)
+  monitor cfg_v_wq32 [(OpIn O [22; 12; 0; 0; 0; 9] 23, OBytes [23; 12; 0; 0; 0; 9]); (OpIn O [22; 12; 0; 0; 0; 5] 23, OBytes [23; 12; 0; 0; 0; 5]);
+                      (OpIn O [24; 1] 23, OBytes [25]); (OpVal 1, OValue [9; 49; 60; 71] None)]
+  = Some (3%nat, t_execute_order)
+  /\ monitor cfg_v_wq32 [(OpIn O [22; 12; 0; 0; 0; 9] 23, OBytes [23; 12; 0; 0; 0; 9]); (OpIn O [22; 12; 0; 0; 0; 5] 23, OBytes [23; 12; 0; 0; 0; 5]);
+                          (OpIn O [24; 1] 23, OBytes [25]); (OpVal 1, OValue [5; 49; 60; 71] None)] = None.
+Proof. split; vm_compute; reflexivity. Qed.
+
+Example C07_monitor_rejects_cancel_that_writes :
+  monitor cfg_v_wq10 [(OpIn O [22; 3; 0; 0; 0; 9] 23, OBytes [23; 3; 0; 0; 0; 9]); (OpIn O [24; 0] 23, OBytes [25]);
+                      (OpVal O, OValue [9; 12; 23; 34] None)]
+  = Some (2%nat, t_execute_cancel).
+Proof. vm_compute. reflexivity. Qed.
+
+Example C07_monitor_rejects_second_owner :
+  monitor cfg_v_wq10 [(OpIn O [22; 3; 0; 0; 0; 9] 23, OBytes [23; 3; 0; 0; 0; 9]); (OpIn 1 [22; 3; 0; 0; 0; 5] 23, OBytes [23; 3; 0; 0; 0; 5])]
+  = Some (1%nat, t_queue_full_other).
+Proof. vm_compute. reflexivity. Qed.
+
+Example C07_monitor_rejects_queue_not_released :
+  monitor cfg_v_wq10 [(OpIn O [22; 3; 0; 0; 0; 9] 23, OBytes [23; 3; 0; 0; 0; 9]); (OpDisc O, ONone);
+                      (OpIn 1 [22; 3; 0; 0; 0; 5] 23, OBytes [1; 22; 3; 0; 9])]
+  = Some (2%nat, t_queue_released).
+Proof. vm_compute. reflexivity. Qed.
+
+Example C07_monitor_rejects_overfull_queue :                     (* 10 bytes: 7 used, 7 more do not fit *)
+  monitor cfg_v_wq10 [(OpIn O [22; 3; 0; 0; 0; 9] 23, OBytes [23; 3; 0; 0; 0; 9]); (OpIn O [22; 3; 0; 0; 0; 5] 23, OBytes [23; 3; 0; 0; 0; 5])]
+  = Some (1%nat, t_queue_capacity).
+Proof. vm_compute. reflexivity. Qed.
+
+Example C07_monitor_rejects_execute_error_code :                 (* the behaviour before the fix: every failure is Invalid Offset *)
+  monitor cfg_v_wq10 [(OpSec O true 1, ONone); (OpIn O [22; 11; 0; 0; 0; 7] 23, OBytes [23; 11; 0; 0; 0; 7]); (OpSec O false 1, ONone);
+                      (OpIn O [24; 1] 23, OBytes [1; 24; 11; 0; 7])]
+  = Some (3%nat, t_execute_order).
+Proof. vm_compute. reflexivity. Qed.
+
+Example C07_monitor_rejects_handler_call :
+  monitor cfg_v_handlers [(OpIn O [22; 3; 0; 0; 0; 1] 23, OBytes [23; 3; 0; 0; 0; 1]); (OpVal O, OValue [1; 12; 23; 34; 45; 56; 67; 78] (Some (0, 1, 1)))]
+  = Some (1%nat, t_prepare_invokes_handler).
 Proof. vm_compute. reflexivity. Qed.
